@@ -190,6 +190,24 @@ def run(rep, tier, seed, model_ok=True, effort=1):
                     if c3 == 0:
                         rep.violation("--set-version %r accepted although that version already exists as a tag" % x, input=dict(inp, args=["--set-version", x] + extra), **{"class": "set-version-equals-tag"})
             rep.sample(dict(pattern=pat, config=cfgv, scope=scope, tags=tags_all[:6], current=cur))
+    # a remote is configured and the fetch FAILS (remote unreachable): whatever bumpver does then, it never reports or starts from the stale
+    # config value as if the repository had no tags
+    for pat, cfgv, tags in (("MAJOR.MINOR.PATCH", "1.0.3", ["1.0.5", "1.0.4", "1.0.3"]), ("vYYYY0M.BUILD[-TAG]", "v202401.1001", ["v202403.1004-beta", "v202401.1001"]),
+                            ("{semver}", "1.0.3", ["1.2.0", "1.0.3"])):
+        for scope in ("default", "global"):
+            prj = project.TempProject(pat, cfgv, files={}, commit=True, tag=True, push=False, tag_scope=scope, vcs="fakegit",
+                                      vcs_cfg=dict(tags=tags, tags_branch=tags, status="", remote="origin", fail=["fetch"], usable=True))
+            with prj:
+                for args in (["show"], ["update", "--dry", "--patch"] if "BUILD" not in pat else ["update", "--dry"]):
+                    code, out, logs, exc = prj.run(impl, args)
+                    cur = next((l.split("Current Version: ", 1)[1] for l in out.splitlines() if l.startswith("Current Version: ")), None)
+                    oldl = next((l.split("Old Version: ", 1)[1] for l in logs if "Old Version: " in l), None)
+                    rep.case(("fetch-fails", pat, scope, args[0]), nontrivial=True)
+                    rep.count("fetch-fails-runs")
+                    started = cur if args[0] == "show" else oldl
+                    if code == 0 and started is not None and started.strip() != tags[0]:
+                        rep.violation("the fetch failed and `%s` went on from %r although the tag %r exists" % (" ".join(args), started.strip(), tags[0]),
+                                      input=dict(version_pattern=pat, config_version=cfgv, scope=scope, tags=tags, failing_vcs_commands=["fetch"], args=args, exit=code), **{"class": "wrong-current"})
     if model_ok:
         bad, errs = common.coq_eval("c09", HDR, "bool * list N * list N * scope * list (list N) * option (list N)",
                                     "fun '(isnew, pat, cfgv, sc, tags, e) => eqb_ostr (resolve_current (%s) isnew pat cfgv sc tags) e" % cz(today), items, shard=25)
